@@ -142,12 +142,12 @@ Qed.
 
 (* ------------------------------------------------ valid I/O priorities *)
 Lemma ioprio_valid_ok c lvl : 0 <= c <= 3 -> 0 <= lvl <= 7 -> (c = 0 \/ c = 3 -> lvl = 0) ->
-  ioprio_pack c lvl = c * 8192 + lvl /\ ioprio_valid (c * 8192 + lvl) = true.
+  ioprio_pack c lvl = c * 8192 + lvl /\ ioprio_valid (c * 8192 + lvl) = true /\ Z.shiftr (c * 8192 + lvl) 13 = c.
 Proof.
   intros Hc Hl H03.
   assert (C : c = 0 \/ c = 1 \/ c = 2 \/ c = 3) by lia.
   assert (L : lvl = 0 \/ lvl = 1 \/ lvl = 2 \/ lvl = 3 \/ lvl = 4 \/ lvl = 5 \/ lvl = 6 \/ lvl = 7) by lia.
   destruct C as [-> | [-> | [-> | ->]]].
-  1, 4: rewrite H03 by lia; split; reflexivity.
-  all: destruct L as [-> | [-> | [-> | [-> | [-> | [-> | [-> | ->]]]]]]]; split; reflexivity.
+  1, 4: rewrite H03 by lia; repeat split; reflexivity.
+  all: destruct L as [-> | [-> | [-> | [-> | [-> | [-> | [-> | ->]]]]]]]; repeat split; reflexivity.
 Qed.
